@@ -345,6 +345,12 @@ class ModelLoader(object):
             
         metaclass = metamodel.find_metaclass(stmt.kind)
             
+        if len(stmt.values) < len(stmt.names):
+            raise ParsingException("%s:%d:%d values for %d named columns" % (stmt.filename,
+                                                                               stmt.lineno,
+                                                                               len(stmt.values),
+                                                                               len(stmt.names)))
+
         schema_unames = [name.upper() for name in metaclass.attribute_names]
         inst_unames = [name.upper() for name in stmt.names]
         
